@@ -14,7 +14,7 @@ import warnings
 import z3 as _z3
 
 from . import engine
-from .engine import Env, HarnessError, StepCapExceeded, keyed_rng
+from .engine import Env, HarnessError, SimInterrupt, StepCapExceeded, keyed_rng
 from .spec import build, BuildRejected
 
 
@@ -307,6 +307,8 @@ class World:
         except StepCapExceeded as exc:
             ev["outcome"] = "no_progress"
             ev["exc"] = str(exc)
+        except SimInterrupt:
+            ev["outcome"] = "interrupted"
         except HarnessError:
             raise
         except BaseException as exc:  # noqa: BLE001 - everything the library throws is a result
@@ -480,7 +482,7 @@ class World:
                 ev["blocks"] = ["or"] + ors
             try:
                 res = s.find_another_solution()
-            except OSError:
+            except (OSError, SimInterrupt):
                 # raised out of the solve() that follows the blocking clause (injected disk fault while
                 # saving an intermediate state): the clause was appended and stays
                 if "blocks" in ev:
@@ -511,7 +513,7 @@ class World:
                         cl.blocked.append(ev["blocks"])
             try:
                 res = s.find_another_solution_for_variable(var)
-            except OSError:
+            except (OSError, SimInterrupt):
                 note_block()   # see find_another: the clause precedes the solve() that raised
                 raise
             note_block()
